@@ -223,6 +223,64 @@ def run(loader, R, tier):
     R.floor("R20.2 sites", R.instances.get("R20.2", 0), 3)
     R.floor("R20.3 sites", R.instances.get("R20.3", 0), 3)
 
+    # ------------------------------------------------------------ R20.12
+    # node classes whose users dereference the first operand: the loader
+    # builds them directly from the container it read, so a record with an
+    # element count of 0 must be rejected there (frozen instances, each
+    # confirmed with replays/c20_nodes_from_empty_containers.cpp: printing
+    # an And/Or/Xor/Piecewise/Union/FiniteSet without operands crashed,
+    # latex of a Derivative without variables did not terminate; Max, Min,
+    # Mul, Add, Subs and FunctionSymbol tolerate empty containers)
+    R.rule("R20.12", "loaders reject an empty operand container for the "
+                     "node classes that cannot be empty")
+    NONEMPTY = ["And", "Or", "Xor", "Piecewise", "Union", "FiniteSet",
+                "Derivative"]
+    lbs = {}
+    for f in prog.functions.values():
+        if f["n"] == "load_basic" and f.get("body") \
+                and f.get("tk") == "inst" and len(f.get("params", ())) >= 2:
+            t = strip_type(f["params"][1]["t"])
+            m = t.replace("SymEngine::RCP<const SymEngine::", "").rstrip(">")
+            lbs.setdefault(m.strip(), f)
+    n12 = 0
+    for K in NONEMPTY:
+        f = lbs.get(K)
+        if f is None:
+            raise AnalysisBroken("load_basic for %s not found" % K)
+        n12 += 1
+        # the container local: declared here, passed to ar(...), handed to
+        # make_rcp
+        mk = [n for n in walk(f["body"]) if n.get("k") == "call"
+              and n.get("n") == "make_rcp"]
+        locs = {v["n"] for d in walk(f["body"]) if d.get("k") == "decl"
+                for v in d.get("v", ())
+                if any(x in (v.get("t") or "") for x in (
+                    "std::set<", "std::vector<", "std::multiset<",
+                    "std::map<", "std::unordered"))}
+        tested = set()
+        for n in walk(f["body"]):
+            if n.get("k") == "if" and any(
+                    y.get("k") == "throw" for y in walk(n.get("t") or {})):
+                for y in walk(n.get("c") or {}):
+                    if y.get("k") == "mcall" and y.get("n") in (
+                            "empty", "size") and (y.get("o") or {}).get(
+                            "n") in locs:
+                        tested.add(y["o"]["n"])
+        used = {x["n"] for m_ in mk for x in walk(m_)
+                if x.get("k") == "ref" and x.get("n") in locs}
+        R.instance("R20.12", K, sample={"class": K,
+                                        "containers": sorted(used),
+                                        "emptiness_tested": sorted(tested)})
+        if not mk or (used - tested):
+            R.violation(
+                "R20.12", K, prog.loc(f),
+                "load_basic builds a %s from the container(s) %s read from "
+                "the archive without rejecting an element count of 0: the "
+                "object cannot be produced by the library itself, and "
+                "printing it dereferences the first operand of an empty "
+                "container" % (K, sorted(used - tested) or sorted(locs)))
+    R.floor("loaders of classes that cannot be empty", n12, 7)
+
     # ------------------------------------------------------------ R20.11
     # numbers rebuilt from untrusted archive fields: inside the load_basic
     # overloads a rational_class may only be formed from two read values
